@@ -8,7 +8,8 @@
     [fwd_lines] for it (hybrid), and the correspondence check ties it. *)
 From Coq Require Import ZArith Bool List Lia.
 From TucModel Require Import Base.Bytes Model.Bounds Model.Scan Model.Utf8 Model.Regex Model.Opt Model.CutBytes Model.CutStr Model.CutLines
-  Tie.RsPrelude Tie.TieBase Tie.RsOpt Tie.RsStr Tie.RsList Tie.RsLines Tie.Bridge_print_bof
+  Tie.RsPrelude Tie.TieBase Tie.RsOpt Tie.RsStr Tie.RsList Tie.RsLines Tie.Bridge_print_bof Tie.LinesFacts
+  Tie.Gen_ub_matches Tie.Bridge_ub_matches
   Tie.Gen_lines_forward.
 Import ListNotations.
 Local Open Scope Z_scope.
@@ -135,3 +136,216 @@ Qed.
 
 Definition tie_lines_forward := tie_lines_forward_finish.
 Print Assumptions tie_lines_forward_finish.
+
+(** ------------------------------------------------------------------------------------------------
+    The inner loop of the main loop: for one line, the pending bounds are walked as the model's
+    [fwd_bounds] walks them. *)
+Section Inner.
+  Variables (o : opt) (sin lb : bytes) (li : Z) (line : bytes).
+  Notation its := (items (o_bounds o)).
+  Notation n := (length (items (o_bounds o))).
+  Notation S6 := (bytes * bytes * bytes * Z * Z * bool)%type.
+  Notation st out i an := (sin, out, lb, li, Z.of_nat i, an) (only parsing).
+
+  (** what one turn of the loop does at index i *)
+  Definition turn (out : bytes) (i : nat) (an : bool) (x : bof) : ctrl S6 (option unit) :=
+    match x with
+    | Filler f => Next (st (out ++ f ++ sep_after o (S i)) (S i) an)
+    | Bound b =>
+        match matches b li with
+        | Some true =>
+            let pre := (if an then [o_eol o] else []) ++ line in
+            if side_eqb (br b) (SSome li)
+            then Next (st (out ++ pre ++ sep_after o (S i)) (S i) false)
+            else Stop (st (out ++ pre) i true)
+        | _ => Stop (st out i an)
+        end
+    end.
+
+  Lemma inner_loop (cond : S6 -> rs bool) (body : S6 -> rs (ctrl S6 (option unit))) :
+    (forall out i an, cond (st out i an) = Ret (Z.of_nat i <? Z.of_nat n)) ->
+    (forall out i an x, nth_error its i = Some x -> body (st out i an) = Ret (turn out i an x)) ->
+    forall k i out an fuel, (n - i = k)%nat -> (i <= n)%nat -> (k < fuel)%nat ->
+      exists tag : S6 -> ctrl S6 (option unit), (tag = Next \/ tag = Stop) /\
+        whileM fuel cond body (st out i an)
+        = let '(o', rest, an') := fwd_bounds o (skipn i its) an li line in
+          Ret (tag (st (out ++ o') (n - length rest) an')).
+  Proof.
+    intros Hc Hb. induction k as [|k IH]; intros i out an fuel Hk Hi Hf; destruct fuel as [|fuel]; try lia; cbn [whileM]; rewrite Hc.
+    - assert (i = n) by lia. subst i. destruct (Z.ltb_spec (Z.of_nat n) (Z.of_nat n)); [lia|]. cbn [bind].
+      rewrite skipn_all. cbn [fwd_bounds length]. rewrite app_nil_r, Nat.sub_0_r. exists Next. split; [left; reflexivity | reflexivity].
+    - destruct (Z.ltb_spec (Z.of_nat i) (Z.of_nat n)); [|lia]. cbn [bind].
+      destruct (nth_error its i) as [x|] eqn:En; [|apply nth_error_None in En; lia].
+      rewrite (Hb out i an x En).
+      assert (Es : skipn i its = x :: skipn (S i) its).
+      { rewrite nth_skipn in En. rewrite skipn_S_tl. destruct (skipn i its); [discriminate|]. cbn in En. injection En as ->. reflexivity. }
+      assert (Esep : sep_after o (S i) = (if o_join o && nonempty (skipn (S i) its) then [o_eol o] else [])).
+      { unfold sep_after. f_equal. f_equal.
+        destruct (Z.eqb_spec (Z.of_nat (S i)) (Z.of_nat n)) as [E|E].
+        - assert (E' : S i = n) by lia. rewrite E', skipn_all. reflexivity.
+        - destruct (skipn (S i) its) eqn:E2; [|reflexivity]. exfalso.
+          apply (f_equal (@length _)) in E2. rewrite skipn_length in E2. cbn in E2. lia. }
+      assert (Hlen : length (skipn i its) = (n - i)%nat) by apply skipn_length.
+      rewrite Es. cbn [fwd_bounds]. unfold turn. destruct x as [b|f]; cbn [bind].
+      + destruct (matches b li) as [[|]|].
+        * destruct (side_eqb (br b) (SSome li)); cbn [bind].
+          -- destruct (IH (S i) (out ++ ((if an then [o_eol o] else []) ++ line) ++ sep_after o (S i)) false fuel ltac:(lia) ltac:(lia) ltac:(lia)) as (tag & Ht & E).
+             exists tag. split; [exact Ht|]. rewrite E, <- Esep.
+             destruct (fwd_bounds o (skipn (S i) its) false li line) as [[o' rest] a']. rewrite <- !app_assoc. reflexivity.
+          -- exists Stop. split; [right; reflexivity|]. rewrite <- Es, Hlen. replace (n - (n - i))%nat with i by lia. reflexivity.
+        * exists Stop. split; [right; reflexivity|]. rewrite <- Es, Hlen, app_nil_r. replace (n - (n - i))%nat with i by lia. reflexivity.
+        * exists Stop. split; [right; reflexivity|]. rewrite <- Es, Hlen, app_nil_r. replace (n - (n - i))%nat with i by lia. reflexivity.
+      + destruct (IH (S i) (out ++ f ++ sep_after o (S i)) an fuel ltac:(lia) ltac:(lia) ltac:(lia)) as (tag & Ht & E).
+        exists tag. split; [exact Ht|]. rewrite E, <- Esep.
+        destruct (fwd_bounds o (skipn (S i) its) an li line) as [[o' rest] a']. rewrite <- !app_assoc. reflexivity.
+  Qed.
+End Inner.
+
+(** ------------------------------------------------------------------------------------------------
+    The main loop: one raw line after the other, each handed to the inner loop, until the input or the
+    bounds are exhausted; then the finishing stages.  For inputs every line of which is valid UTF-8 with
+    and without its terminator in the same way (appending an ASCII terminator does not change validity; not
+    proved here, hence a hypothesis), fewer than 2^31 - 1 lines... *)
+Definition of_outcome_fwd (m : outcome) (x : rs (option unit * bytes)) : Prop :=
+  match m with
+  | Done out => x = Ret (Some tt, out)
+  | Fail _ => exists partial, x = Ret (None, partial)
+  | _ => True
+  end.
+
+Section Outer.
+  Variables (o : opt) (lb out0 : bytes).
+  Notation its := (items (o_bounds o)).
+  Notation n := (length (items (o_bounds o))).
+  Notation eol := (o_eol o).
+  Notation S6 := (bytes * bytes * bytes * Z * Z * bool)%type.
+
+  Definition after (r : ctrl S6 (option unit)) : rs (option unit * bytes) :=
+    match r with
+    | Next (sin', out', lb', li', i', an') => gen_lines_forward_s5 sin' out' o lb' li' i' an'
+    | Stop (sin', out', lb', li', i', an') => gen_lines_forward_s5 sin' out' o lb' li' i' an'
+    | Break v => Ret (v, out0)
+    end.
+
+  Definition step_model (sin out : bytes) (li : Z) (i : nat) (an : bool) : rs (ctrl S6 (option unit)) :=
+    match sin with
+    | [] => Ret (Stop ([], out, lb, li, Z.of_nat i, an))
+    | _ => let '(raw, rest) := take_line eol sin in
+           if utf8_valid raw then
+             let '(o', restb, an') := fwd_bounds o (skipn i its) an (li + 1) (strip_eol eol raw) in
+             let i' := (n - length restb)%nat in
+             Ret ((if Z.of_nat i' =? Z.of_nat n then Stop else Next) (rest, out ++ o', lb, li + 1, Z.of_nat i', an'))
+           else Ret (Break None)
+    end.
+
+  Lemma outer_loop (step : S6 -> rs (ctrl S6 (option unit))) :
+    Z.of_nat n + 1 <= usize_max ->
+    (forall sin out li i an, 0 <= li -> li + 1 <= i32_max -> (i <= n)%nat ->
+       step (sin, out, lb, li, Z.of_nat i, an) = step_model sin out li i an) ->
+    forall fuel sin out li i an,
+      (length sin < fuel)%nat -> 0 <= li -> li + Z.of_nat (length sin) + 1 <= i32_max -> (i < n)%nat ->
+      (an = true -> exists b r, skipn i its = Bound b :: r) ->
+      (forall l, In l (records eol sin) -> utf8_valid (l ++ [eol]) = utf8_valid l) ->
+      of_outcome_fwd (fwd_lines o (records eol sin) (skipn i its) an li out)
+                     (bind (loopWhile fuel step (sin, out, lb, li, Z.of_nat i, an)) after).
+  Proof.
+    intros Hn Hstep. induction fuel as [|fuel IH]; intros sin out li i an Hf Hli Hmax Hi Hinv Hutf; [lia|].
+    cbn [loopWhile]. rewrite Hstep by lia. unfold step_model.
+    destruct sin as [|c sin'].
+    - (* the input is exhausted *)
+      cbn [bind records records_aux fwd_lines after].
+      pose proof (tie_lines_forward_finish o [] out lb li i an ltac:(lia) Hn) as F.
+      assert (Hinv' : an = true -> exists b, nth_error its i = Some (Bound b)).
+      { intros E. destruct (Hinv E) as (b & r & Hs). exists b. rewrite nth_skipn, Hs. reflexivity. }
+      specialize (F Hinv'). destruct (fwd_finish o (skipn i its) an) as [t|]; cbn [of_outcome_fwd]; exact F.
+    - set (sin0 := c :: sin') in *. assert (Hne : sin0 <> []) by discriminate.
+      pose proof (records_take eol sin0 Hne) as RT. pose proof (take_line_length eol sin0) as [_ TL]. specialize (TL Hne).
+      unfold sin0 at 1. cbv iota. fold sin0.
+      destruct (take_line eol sin0) as [raw rest] eqn:Et. cbn [snd] in TL. destruct RT as [Erec Eraw].
+      rewrite Erec. cbn [fwd_lines].
+      assert (Hu : utf8_valid raw = utf8_valid (strip_eol eol raw)).
+      { destruct Eraw as [E|[E _]]; [|rewrite <- E; reflexivity]. rewrite E at 1. apply Hutf. rewrite Erec. left. reflexivity. }
+      rewrite Hu. destruct (utf8_valid (strip_eol eol raw)); cbn [negb]; [|cbn [bind after of_outcome_fwd]; eexists; reflexivity].
+      pose proof (fwd_bounds_suffix o (li + 1) (strip_eol eol raw) (skipn i its) an Hinv) as FS.
+      destruct (fwd_bounds o (skipn i its) an (li + 1) (strip_eol eol raw)) as [[o' restb] an'].
+      destruct FS as [[pre Hpre] Han'].
+      assert (Hsk : skipn (n - length restb) its = restb).
+      { assert (Hits : its = firstn i its ++ pre ++ restb) by (rewrite <- Hpre; symmetry; apply firstn_skipn).
+        rewrite app_assoc in Hits. apply (suffix_skipn its (firstn i its ++ pre) restb Hits). }
+      assert (Hlr : (length restb <= n)%nat).
+      { apply (f_equal (@length _)) in Hpre. rewrite skipn_length, app_length in Hpre. lia. }
+      destruct restb as [|rb restb'] eqn:Erb.
+      + (* every bound has been used: the loop is left, the finishing stages add the EOL *)
+        cbn [length]. rewrite Nat.sub_0_r, Z.eqb_refl. cbn [bind after].
+        pose proof (tie_lines_forward_finish o rest (out ++ o') lb (li + 1) n an' ltac:(lia) Hn) as F.
+        assert (Hno : an' = true -> exists b, nth_error its n = Some (Bound b)).
+        { intros E. destruct (Han' E) as (b & r & Hb). discriminate. }
+        specialize (F Hno). rewrite skipn_all in F. cbn [fwd_finish fwd_tail app] in F. cbn [of_outcome_fwd]. rewrite <- app_assoc in F. exact F.
+      + rewrite <- Erb in *. assert (Hl1 : (1 <= length restb)%nat) by (rewrite Erb; cbn; lia).
+        destruct (Z.eqb_spec (Z.of_nat (n - length restb)) (Z.of_nat n)) as [E|E]; [lia|].
+        cbn [bind]. replace (match restb with [] => Done (out ++ o' ++ [eol]) | _ :: _ => fwd_lines o (records eol rest) restb an' (li + 1) (out ++ o') end)
+          with (fwd_lines o (records eol rest) restb an' (li + 1) (out ++ o')) by (rewrite Erb; reflexivity).
+        assert (IH' := IH rest (out ++ o') (li + 1) (n - length restb)%nat an').
+        rewrite Hsk in IH'. apply IH'; try lia.
+        * exact Han'.
+        * intros l Hl. apply Hutf. rewrite Erec. right. exact Hl.
+  Qed.
+End Outer.
+
+Lemma i32_add_1 (a : Z) : 0 <= a -> a + 1 <= i32_max -> i32_add a 1 = Ret (a + 1).
+Proof.
+  intros H1 H2. unfold i32_add, i32_chk, in_i32, i32_min, i32_max in *.
+  destruct (Z.leb_spec (-2147483648) (a + 1)); [|lia]. destruct (Z.leb_spec (a + 1) 2147483647); [|lia]. reflexivity.
+Qed.
+
+(** the whole function *)
+Theorem tie_lines_forward_whole : forall (o : opt) (input : bytes),
+  items (o_bounds o) <> [] ->
+  Z.of_nat (length (items (o_bounds o))) + 1 <= usize_max ->
+  Z.of_nat (length input) + 1 <= i32_max ->
+  (forall l, In l (records (o_eol o) input) -> utf8_valid (l ++ [o_eol o]) = utf8_valid l) ->
+  of_outcome_fwd (fwd_lines o (records (o_eol o) input) (items (o_bounds o)) false 0 [])
+                 (gen_lines_forward input o).
+Proof.
+  intros o input Hne Hn Hlen Hutf.
+  cbv beta delta [gen_lines_forward gen_lines_forward_s1 gen_lines_forward_s2 gen_lines_forward_s3 gen_lines_forward_s4] iota zeta.
+  assert (Hpos : (0 < length (items (o_bounds o)))%nat) by (destruct (items (o_bounds o)); [contradiction | cbn; lia]).
+  match goal with |- of_outcome_fwd _ (bind (loopWhile ?fuel ?step ?st) ?aft) =>
+    assert (Hstep : forall sin out li i an, 0 <= li -> li + 1 <= i32_max -> (i <= length (items (o_bounds o)))%nat ->
+               step (sin, out, [], li, Z.of_nat i, an) = step_model o [] sin out li i an);
+    [| assert (Haft : forall r, aft r = after o [] r) by (intros [[[[[[a b] c] d] e] f]|[[[[[a b] c] d] e] f]|v]; reflexivity);
+       pose proof (outer_loop o [] [] step Hn Hstep fuel input [] 0 0%nat false) as OL ]
+  end.
+  2:{ change (Z.of_nat 0) with 0 in OL. cbn [skipn] in OL.
+      match goal with |- of_outcome_fwd _ (bind ?x ?aft) =>
+        replace (bind x aft) with (bind x (after o [])) by (destruct x as [r|]; [cbn [bind]; symmetry; apply Haft | reflexivity]) end.
+      apply OL; try lia; try discriminate; try exact Hutf. }
+  (* one turn of the main loop *)
+  intros sin out li i an Hli Hmax Hi. unfold step_model, read_line_eol.
+  destruct sin as [|c sin']; [reflexivity|]. set (sin0 := c :: sin').
+  destruct (take_line (o_eol o) sin0) as [raw rest]. cbv iota beta.
+  destruct (utf8_valid raw); cbv iota beta; rewrite (i32_add_1 li Hli Hmax); cbn [bind]; [|reflexivity].
+  fold (strip_eol (o_eol o) raw). set (line := strip_eol (o_eol o) raw).
+  match goal with |- context [whileM ?f ?c ?b _] =>
+    destruct (inner_loop o rest [] (li + 1) line c b) with (k := (length (items (o_bounds o)) - i)%nat) (i := i) (out := out) (an := an) (fuel := f)
+      as (tag & Htag & E) end; try lia.
+  - intros; reflexivity.
+  - (* one turn of the inner loop *)
+    intros out' j an0 x En. rewrite Nat2Z.id, En. cbn [opt_unwrap bind]. unfold turn, sep_after.
+    assert (Hj : (j < length (items (o_bounds o)))%nat) by (apply nth_error_Some; rewrite En; discriminate).
+    destruct x as [b|f].
+    + rewrite tie_ub_matches. cbn [bind].
+      destruct (matches b (li + 1)) as [[|]|]; try reflexivity.
+      destruct (side_eqb (br b) (SSome (li + 1))).
+      * rewrite (usize_add_1 j) by lia. cbn [bind].
+        destruct an0; destruct (o_join o && negb (Z.of_nat (S j) =? Z.of_nat (length (items (o_bounds o)))))%bool;
+          cbn [app]; rewrite <- ?app_assoc, ?app_nil_r; reflexivity.
+      * destruct an0; cbn [app]; rewrite <- ?app_assoc; reflexivity.
+    + rewrite (usize_add_1 j) by lia. cbn [bind].
+      destruct (o_join o && negb (Z.of_nat (S j) =? Z.of_nat (length (items (o_bounds o)))))%bool; rewrite <- ?app_assoc, ?app_nil_r; reflexivity.
+  - rewrite E. destruct (fwd_bounds o (skipn i (items (o_bounds o))) an (li + 1) line) as [[o' restb] an'].
+    destruct Htag as [-> | ->]; cbn [bind];
+      destruct (Z.of_nat (length (items (o_bounds o)) - length restb) =? Z.of_nat (length (items (o_bounds o)))); reflexivity.
+Qed.
+
+Print Assumptions tie_lines_forward_whole.
